@@ -2,6 +2,7 @@ import KoordVerif.Model.C12
 import KoordVerif.Proofs.C12
 import KoordVerif.Proofs.C12None
 import KoordVerif.Proofs.C12ExtStatic
+import KoordVerif.Proofs.C12ExtEnv
 /-
 C12 — property theorems (DESIGN.md §4 C12, Appendix A.5).
 
@@ -724,6 +725,238 @@ example : ∀ k, Valid spExParent subMask (applyWrites spExS.files
     (by intro n hn; simp at hn; rcases hn with h | h | h <;> subst h <;> decide)
     (by decide)
     (by intro c p h; unfold spExParent at h; split at h <;> cases h <;> decide)
+
+/-! ### directories that do not exist while a batch runs (ignored-error / write-failure `continue` branches) -/
+
+/-- the tree of the existing directories: an edge counts only when both ends exist. -/
+def liveParent (parent : Nat → Option Nat) (ex : Nat → Bool) : Nat → Option Nat := fun c =>
+  match parent c with
+  | some p => if ex c && ex p then some p else none
+  | none => none
+
+/-- intended content: the target on the existing directories, untouched elsewhere. -/
+def liveT (ex : Nat → Bool) (old T : Nat → α) : Nat → α := fun n => if ex n then T n else old n
+
+theorem liveParent_some {parent : Nat → Option Nat} {ex : Nat → Bool} {c p : Nat}
+    (h : liveParent parent ex c = some p) : parent c = some p ∧ ex c = true ∧ ex p = true := by
+  unfold liveParent at h
+  split at h
+  · next q hq =>
+    split at h
+    · next hex => cases h; simp only [Bool.and_eq_true] at hex; exact ⟨hq, hex.1, hex.2⟩
+    · cases h
+  · cases h
+
+theorem live_flatten (ex : Nat → Bool) (levels : List (List (Upd α))) :
+    (liveLevels ex levels).flatten = levels.flatten.filter fun u => ex u.node :=
+  (filter_flatten' _ levels).symm
+
+theorem mem_live_flatten {ex : Nat → Bool} {levels : List (List (Upd α))} {u : Upd α} :
+    u ∈ (liveLevels ex levels).flatten ↔ u ∈ levels.flatten ∧ ex u.node = true := by
+  rw [live_flatten, List.mem_filter]
+
+theorem liveBatchOK (ex : Nat → Bool) (levels : List (List (Upd α))) (old T : Nat → α)
+    (hb : BatchOK levels old T) : BatchOK (liveLevels ex levels) old (liveT ex old T) where
+  tgt := by
+    intro u hu
+    obtain ⟨h1, h2⟩ := mem_live_flatten.mp hu
+    simp only [liveT, h2, if_true]; exact hb.tgt u h1
+  out := by
+    intro n hn
+    by_cases he : ex n = true
+    · simp only [liveT, he, if_true]
+      apply hb.out
+      intro hmem
+      apply hn
+      obtain ⟨u, hu, rfl⟩ := mem_nodes hmem
+      exact List.mem_map_of_mem (mem_live_flatten.mpr ⟨hu, he⟩)
+    · simp [liveT, he]
+  nodup := by
+    rw [live_flatten]
+    exact hb.nodup.sublist (List.Sublist.map _ List.filter_sublist)
+
+theorem liveLevelled (parent : Nat → Option Nat) (ex : Nat → Bool) (levels : List (List (Upd α)))
+    (h : Levelled parent levels) : Levelled (liveParent parent ex) (liveLevels ex levels) := by
+  refine ⟨?_, ?_⟩
+  · unfold liveLevels
+    rw [List.pairwise_map]
+    refine h.1.imp ?_
+    intro hi lo hh a ha b hb hp
+    exact hh a (List.mem_filter.mp ha).1 b (List.mem_filter.mp hb).1 (liveParent_some hp).1
+  · intro L hL a ha b hb hp
+    unfold liveLevels at hL
+    obtain ⟨L0, hL0, rfl⟩ := List.mem_map.mp hL
+    exact h.2 L0 hL0 a (List.mem_filter.mp ha).1 b (List.mem_filter.mp hb).1 (liveParent_some hp).1
+
+section MissingDirs
+set_option linter.unusedSectionVars false
+variable {D : Dom α} (hD : DomEq D) (hm : D.mergeable = true) (exp : Bool)
+variable (ex : Nat → Bool) (levels : List (List (Upd α))) (s : St α) (T : Nat → α)
+include hD hm
+
+/-- **missing_dirs_final**: when some directories of the batch do not exist, every existing file still ends on its
+    target and nothing else changes. -/
+theorem missing_dirs_final (hc : CacheOK s) (hb : BatchOK levels s.files T) :
+    ∀ n, (runBatchE D exp ex levels s).1.files n = if ex n then T n else s.files n := by
+  intro n
+  rw [runBatchE_eq]
+  exact final_is_target hD hm exp _ s _ hc (liveBatchOK ex levels s.files T hb) n
+
+/-- **missing_dirs_cache_consistent**: the cache still describes the files, and NO cache entry is made or changed
+    for a directory that does not exist (a failed / ignored update is not recorded as done). -/
+theorem missing_dirs_cache_consistent (hc : CacheOK s) (hb : BatchOK levels s.files T) :
+    CacheOK (runBatchE D exp ex levels s).1 ∧
+    ∀ n, ex n = false → (runBatchE D exp ex levels s).1.cache n = s.cache n := by
+  refine ⟨?_, ?_⟩
+  · rw [runBatchE_eq]
+    exact cache_consistent_after hD hm exp _ s _ hc (liveBatchOK ex levels s.files T hb)
+  · intro n hn
+    simp only [runBatchE, runPass_stepE]
+    rw [runPass_cache_frame _ (fun s u m h => step2_cache_frame D exp s u m h) _ _ n (nodes_filter_ex ex _ n hn),
+        runPass_cache_frame _ (fun s u m h => step1_cache_frame D exp s u m h) _ _ n (nodes_filter_ex ex _ n hn)]
+
+theorem missing_dirs_writes_replay (hc : CacheOK s) (hb : BatchOK levels s.files T) :
+    applyWrites s.files (runBatchE D exp ex levels s).2 = (runBatchE D exp ex levels s).1.files := by
+  rw [runBatchE_eq]
+  exact writes_replay hD hm exp _ s _ hc (liveBatchOK ex levels s.files T hb)
+
+/-- **missing_dirs_every_prefix_valid**: with any set of directories missing during the batch, every prefix of the
+    write sequence leaves the tree of the EXISTING directories valid (start and target valid on that tree). -/
+theorem missing_dirs_every_prefix_valid {le : α → α → Prop} (hO : DomOrd D le) (parent : Nat → Option Nat)
+    (hc : CacheOK s) (hb : BatchOK levels s.files T) (hlev : Levelled parent levels)
+    (hold : Valid (liveParent parent ex) le s.files) (htgt : Valid (liveParent parent ex) le T) :
+    ∀ k, Valid (liveParent parent ex) le (applyWrites s.files ((runBatchE D exp ex levels s).2.take k)) := by
+  rw [runBatchE_eq]
+  apply every_prefix_valid hD hm exp _ s _ hO _ hc (liveBatchOK ex levels s.files T hb)
+    (liveLevelled parent ex levels hlev) hold
+  intro c p h
+  obtain ⟨_, h1, h2⟩ := liveParent_some h
+  simp only [liveT, h1, h2, if_true]
+  exact htgt c p h
+
+end MissingDirs
+
+/-! ### histories with a changing set of directories: batches, and the runtime creating / removing cgroups -/
+
+inductive Ev (α : Type) where
+  /-- one LeveledUpdateBatch (cache expired?, updaters) with its intended assignment -/
+  | batch (exp : Bool) (levels : List (List (Upd α))) (T : Nat → α)
+  /-- the runtime creates directory `n` with content `v` -/
+  | create (n : Nat) (v : α)
+  /-- directory `n` disappears -/
+  | remove (n : Nat)
+
+/-- state of a history: executor + files, and which directories exist. -/
+def evStep (D : Dom α) : St α × (Nat → Bool) → Ev α → St α × (Nat → Bool)
+  | (s, ex), .batch exp levels _ => ((runBatchE D exp ex levels s).1, ex)
+  | (s, ex), .create n v => ({ s with files := setAt s.files n v }, setAt ex n true)
+  | (s, ex), .remove n => (s, setAt ex n false)
+
+/-- what the environment must respect: a created directory is new for the executor (no cache entry — the code
+    never records a directory it could not write — or an entry equal to the content), lies within its existing
+    parent, and its children do not exist yet. -/
+def EvsOK (D : Dom α) (parent : Nat → Option Nat) (le : α → α → Prop) : St α × (Nat → Bool) → List (Ev α) → Prop
+  | _, [] => True
+  | (s, ex), e :: es =>
+    (match e with
+     | .batch _ levels T => BatchOK levels s.files T ∧ Levelled parent levels ∧ Valid (liveParent parent ex) le T
+     | .create n v => ex n = false ∧ (s.cache n = none ∨ s.cache n = some v) ∧
+         (∀ p, parent n = some p → ex p = true → le v (s.files p)) ∧ (∀ c, parent c = some n → ex c = false)
+     | .remove _ => True) ∧
+    EvsOK D parent le (evStep D (s, ex) e) es
+
+/-- every crash point of every batch of the history leaves the existing tree valid. -/
+def AllPrefixesValid (D : Dom α) (parent : Nat → Option Nat) (le : α → α → Prop) :
+    St α × (Nat → Bool) → List (Ev α) → Prop
+  | _, [] => True
+  | (s, ex), e :: es =>
+    (match e with
+     | .batch exp levels _ =>
+         ∀ k, Valid (liveParent parent ex) le (applyWrites s.files ((runBatchE D exp ex levels s).2.take k))
+     | _ => True) ∧
+    AllPrefixesValid D parent le (evStep D (s, ex) e) es
+
+/-- **churn_history_every_prefix_valid**: over any history of batches interleaved with the runtime creating and
+    removing cgroup directories (under `EvsOK`), from a consistent cache and a valid existing tree, every crash
+    point of every batch leaves the existing tree valid. -/
+theorem churn_history_every_prefix_valid {D : Dom α} (hD : DomEq D) (hm : D.mergeable = true)
+    {le : α → α → Prop} (hO : DomOrd D le) (parent : Nat → Option Nat) :
+    ∀ (es : List (Ev α)) (s : St α) (ex : Nat → Bool), CacheOK s → Valid (liveParent parent ex) le s.files →
+      EvsOK D parent le (s, ex) es → AllPrefixesValid D parent le (s, ex) es := by
+  intro es
+  induction es with
+  | nil => intro s ex _ _ _; trivial
+  | cons e es ih =>
+    intro s ex hc hv hok
+    obtain ⟨he, hrest⟩ := hok
+    cases e with
+    | batch exp levels T =>
+      obtain ⟨hb, hlev, htgt⟩ := he
+      have hpre := missing_dirs_every_prefix_valid hD hm exp ex levels s T hO parent hc hb hlev hv htgt
+      refine ⟨hpre, ?_⟩
+      apply ih _ _ (missing_dirs_cache_consistent hD hm exp ex levels s T hc hb).1 ?_ hrest
+      have hfin := missing_dirs_final hD hm exp ex levels s T hc hb
+      intro c p h
+      obtain ⟨_, h1, h2⟩ := liveParent_some h
+      show le ((runBatchE D exp ex levels s).1.files c) ((runBatchE D exp ex levels s).1.files p)
+      rw [hfin c, hfin p]; simp only [h1, h2, if_true]; exact htgt c p h
+    | create n v =>
+      obtain ⟨hex, hcache, hle, hkids⟩ := he
+      refine ⟨trivial, ?_⟩
+      apply ih _ _ ?_ ?_ hrest
+      · intro m x hx
+        simp only [setAt] at hx ⊢
+        by_cases hmn : m = n
+        · subst hmn; simp only [if_true]
+          rcases hcache with h | h <;> rw [h] at hx <;> cases hx; rfl
+        · simp only [hmn, if_false]; exact hc m x hx
+      · intro c p h
+        obtain ⟨hp, h1, h2⟩ := liveParent_some h
+        simp only [setAt] at h1 h2 ⊢
+        by_cases hcn : c = n
+        · subst hcn
+          by_cases hpn : p = c
+          · subst hpn; simp only [if_true]; exact hO.refl v
+          · simp only [if_true, hpn, if_false] at h2 ⊢
+            exact hle p hp h2
+        · simp only [hcn, if_false] at h1 ⊢
+          by_cases hpn : p = n
+          · subst hpn; rw [hkids c hp] at h1; cases h1
+          · simp only [hpn, if_false] at h2 ⊢
+            apply hv c p
+            simp [liveParent, hp, h1, h2]
+    | remove n =>
+      refine ⟨trivial, ?_⟩
+      apply ih _ _ hc ?_ hrest
+      intro c p h
+      obtain ⟨hp, h1, h2⟩ := liveParent_some h
+      simp only [setAt] at h1 h2
+      apply hv c p
+      by_cases hcn : c = n
+      · simp [hcn] at h1
+      · by_cases hpn : p = n
+        · simp [hpn] at h2
+        · simp only [hcn, hpn, if_false] at h1 h2
+          simp [liveParent, hp, h1, h2]
+
+/-- churn non-vacuity (memory.high-like limits, tree 0 ← 1): dir 1 does not exist during the first batch (targets
+    200000 / 150000), the runtime then creates it with its parent's 200000, the second batch asks 150000 for both:
+    the child is lowered first, nothing was cached for it while it was missing. -/
+def chEvs : List (Ev Int) :=
+  [.batch false [[{ node := 0, tgt := some 200000 }], [{ node := 1, tgt := some 150000 }]] (fun n => if n = 0 then 200000 else 150000),
+   .create 1 200000,
+   .batch false [[{ node := 0, tgt := some 150000 }], [{ node := 1, tgt := some 150000 }]] (fun _ => 150000)]
+def chS : St Int := { files := fun n => if n = 0 then 100000 else 150000, cache := fun _ => none, skip := [] }
+def chEx : Nat → Bool := fun n => n != 1
+def chParent : Nat → Option Nat
+  | 1 => some 0 | _ => none
+
+example : (runBatchE limDom false chEx [[{ node := 0, tgt := some 200000 }], [{ node := 1, tgt := some 150000 }]] chS).2 =
+    [(0, 200000)] := by decide
+example : (runBatchE limDom false (fun _ => true) [[{ node := 0, tgt := some 150000 }], [{ node := 1, tgt := some 150000 }]]
+    (evStep limDom (evStep limDom (chS, chEx) chEvs[0]) chEvs[1]).1).2 = [(1, 150000), (0, 150000)] := by decide
+example : ((runBatchE limDom false chEx [[{ node := 0, tgt := some 200000 }], [{ node := 1, tgt := some 150000 }]] chS).1.cache 1) = none := by
+  decide
 
 /-! ### non-vacuity: a CPU-set *shift* on a 3-level tree (0 ← 1 ← 2, 0 ← 3) -/
 
